@@ -466,6 +466,19 @@ def tags(res, design, obs1, att):
         res.dist("has:text-outside-model")
     if any(s["k"] == "names" and len(s["nets"]) > 11 for s in st):
         res.dist("has:names-11plus-inputs")
+    words = set()
+    for s in st:
+        refs = list(s.get("nets", [])) + list(s.get("fields", [])) + [c[3] for c in s.get("conns", [])] + [s.get("a"), s.get("b")]
+        words.update(r[0] for r in refs if r)
+        words.update(c[0] for c in s.get("conns", []))
+        if s.get("cname"):
+            words.add(s["cname"])
+    for _k, refs in design["hdr"]:
+        words.update(r[0] if isinstance(r, (list, tuple)) else r for r in refs)
+    if any("unconn" in w for w in words):
+        res.dist("has:name-containing-unconn")
+    if any(any(k in w for k in G.KW_PLAIN[4:] + G.KW_DOLLAR) for w in words):
+        res.dist("has:keyword-like-name")
     for sig, r in att:
         res.dist("finding:" + str(sig) if r[1] == "P" else "corr-attributed:" + str(sig))
 
@@ -598,8 +611,9 @@ def run(ctx):
         "elects the first .model and re-elects through check_hierarchy; a first model the top never instantiates stays top, "
         "as in BLIF); non-black-box sub-models are out of scope (the format support is flat); text outside any .model is "
         "ignored (lines without the words # and .model are generated); "
-        "names without * ? = # (get_ports/get_cables treat * ? as globs; = splits formal from actual) and without the "
-        "substring unconn; base names do not end in _<digits>; two drivers on one net bit only in the `multi-driver` class; "
+        "names without * ? = # (get_ports/get_cables treat * ? as globs; = splits formal from actual), never the bare "
+        "word unconn (names that merely contain unconn, a statement keyword without its dot or a $false/$true/$undef "
+        "look-alike are generated as ordinary names); base names do not end in _<digits>; two drivers on one net bit only in the `multi-driver` class; "
         ".cname distinct from net names; `\\` only as last word of a statement line; no comment between truth-table rows",
         "instance identity across write-then-read is positional (the writer's category order subckt, gate, other, names, latch); "
         "names are compared only when write_eblif_cname is on; the bookkeeping key `unconn` and black-box port directions are "
